@@ -89,6 +89,20 @@ theorem mem_restricted_iff (hl : IsLabelling g lab n) (f : Px → Bool) (I : Isl
     I ∈ findRestricted g lab n f ↔ I ∈ findUnrestricted g lab n ∧ ∃ p ∈ I.pixels, f p = true := by
   rw [restricted_eq_filter hl f, filterSpec, List.mem_filter, touches, List.any_eq_true]
 
+/-- **restricted_eq_spec** — the property in its own terms: a pixel set is reported by the
+    restricted run iff it is a seeded 8-connected flood group (C02's Spec) with at least one of
+    its pixels inside the region -/
+theorem restricted_eq_spec (hl : IsLabelling g lab n) (f : Px → Bool) (S : Px → Prop) :
+    (∃ I ∈ findRestricted g lab n f, ∀ p, p ∈ I.pixels ↔ S p) ↔
+      (IsIsland g S ∧ ∃ q, S q ∧ f q = true) := by
+  constructor
+  · rintro ⟨I, hI, hS⟩
+    obtain ⟨hU, q, hq, hf⟩ := (mem_restricted_iff hl f I).1 hI
+    exact ⟨(Aegean.Properties.C02.islands_eq_spec hl S).1 ⟨I, hU, hS⟩, q, (hS q).1 hq, hf⟩
+  · rintro ⟨hS, q, hq, hf⟩
+    obtain ⟨I, hI, hp⟩ := (Aegean.Properties.C02.islands_eq_spec hl S).2 hS
+    exact ⟨I, (mem_restricted_iff hl f I).2 ⟨hI, q, (hp q).2 hq, hf⟩, hp⟩
+
 end theorems
 
 /-! ### Non-vacuity and negation witness: a 1×4 island in row 0, columns 2–5, region = columns ≥ 4 -/
